@@ -43,6 +43,15 @@ def gen_texts(chk):
     for _ in range(1500 if thorough else 300):
         t, e = A.gen_program(rng, sp, 2 + rng.below(5), in_range=rng.chance(4, 5))
         out.append((t, 'program', 'ERR' if e is None else b''.join(A.slot_bytes(s) for s in e)))
+    # a known mnemonic with one more suffix is another, unknown, mnemonic: an error, never the base instruction
+    sp0 = A.Speller(rng, 0)
+    for name in sorted(A.TABLE):
+        for suf in ('64', '32', '6464', '3264', '16', 'x', '0'):
+            if name + suf in A.TABLE:
+                continue
+            t, e = A.gen_insn(rng, sp0, name=name)
+            if t.startswith(name):
+                out.append((name + suf + t[len(name):], 'suffixed', 'ERR'))
     # unknown mnemonics / wrong shapes / malformed: an error (no expectation computed here unless certain)
     for _ in range(3000 if thorough else 600):
         out.append((A.malformed(rng, sp), 'malformed', None))
@@ -81,7 +90,8 @@ def run(chk):
                            'of the parsed text, and (where the generator knows the intended fields) with independently computed bytes')
         chk.cov['input_distribution'] = {'families': fams, 'implementation_outcomes': outs}
         chk.cov['samples'] = [{'request': repr(texts[i])[:200], 'implementation': answers[i][:100]} for i in (0, 500, len(texts) - 1)]
-        for i in sorted(bad)[:10]:
+        # concrete disagreements with the specification / the independent expectation first, model-vs-implementation ones after
+        for i in sorted(bad, key=lambda k: (bad[k] == 1, k))[:10]:
             cd = bad[i]
             found = True
             crashed = cd == 4
